@@ -6,6 +6,7 @@ import (
 	"github.com/brutella/hc/log"
 	"net"
 	"sync"
+	"sync/atomic"
 	"time"
 
 	"bufio"
@@ -39,6 +40,10 @@ type Connection struct {
 	// connection in one piece, otherwise the frame counters get out of order when
 	// responses and event notifications are written by different goroutines.
 	writeMutex sync.Mutex
+
+	// Set (to 1) by Close before the session is removed. Without a session Write cannot encrypt;
+	// a writer which gets its turn while the connection is being closed must not send its bytes as they are.
+	closed int32
 }
 
 // NewConnection returns a hap connection.
@@ -150,6 +155,12 @@ func (con *Connection) Write(b []byte) (int, error) {
 		return con.EncryptedWrite(b)
 	}
 
+	if atomic.LoadInt32(&con.closed) != 0 {
+		// The session is gone because the connection is being closed (e.g. an event notification
+		// which was on its way): nothing is written instead of writing unencrypted.
+		return 0, errors.New("connection is closed")
+	}
+
 	return con.connection.Write(b)
 }
 
@@ -181,6 +192,8 @@ func (con *Connection) Read(b []byte) (int, error) {
 // Close closes the connection and deletes the related session from the context.
 func (con *Connection) Close() error {
 	log.Debug.Println("Close connection and remove session")
+
+	atomic.StoreInt32(&con.closed, 1)
 
 	// Remove session from the context
 	con.context.DeleteSessionForConnection(con.connection)
